@@ -682,8 +682,8 @@ EXCL_PATTERNS = ["a", "/a", "ab", "*.o", "/d/*.o", "tmp", "/tmp", "**/cache", "d
 def gen_c15(tier, seed):
     rng = random.Random(seed * 1000 + 15)
     mcs = []
-    r = cvlib.run_tlc_model("MC_Exclude.tla", "MC_Exclude.cfg", timeout=600)
-    mcs.append(("MC_Exclude.tla", "MC_Exclude.cfg", r))
+    r = cvlib.run_tlc_model("MC_Exclude.tla", "MC_Exclude_thorough.cfg", timeout=600)
+    mcs.append(("MC_Exclude.tla", "MC_Exclude_thorough.cfg", r))
     scens = []
     n = 250 if tier == "quick" else 3000
     for i in range(n):
